@@ -160,8 +160,10 @@ PROPS = {
         modules=["Fuota.Props.C13", "Fuota.Props.RingRefine"],
         closure=dict(quick=[4, 5], thorough=[4, 5, 6]),
         suites=[dict(name="d6", cfg="matrix", keys=["res", "ops"]),
-                dict(name="d5w", cfg="matrix", keys=["res", "ops"])],
-        rule="ring histories (d6) and crash-inside-every-operation scenarios (d5w); after every try_recover / "
+                dict(name="d5w", cfg="matrix", keys=["res", "ops"]),
+                dict(name="d5r", cfg="matrix", keys=["res", "ops"])],
+        rule="ring histories (d6), crash-inside-every-operation scenarios (d5w) and clean reboots of live sessions at "
+             "sampled positions incl. wrapped pairs and exact-fit geometries (d5r); after every try_recover / "
              "cancel_all the oracle checks the parsed headers (only the returned pair in progress / nothing in "
              "progress), that no confirmed / rejected / ack-pending slot was touched, that the returned pair was written "
              "by one and the same start attempt (no chimera), and repeated recovery is compared for idempotence",
@@ -170,8 +172,8 @@ PROPS = {
     ),
     "C17": dict(
         modules=["Fuota.Props.C17"],
-        suites=[dict(name="d5m", cfg="matrix", keys=["res", "ops", "recv"]),
-                dict(name="d5m", cfg="checked", keys=["res", "ops", "recv"])],
+        suites=[dict(name="d5m", cfg="matrix", keys=["res", "ops", "recv", "rem"]),
+                dict(name="d5m", cfg="checked", keys=["res", "ops", "recv", "rem"])],
         rule="malformed fragment indices (0, n+1240005543, 2^14, 2^16, 2^32-1, ...) delivered at sampled positions of "
              "sessions (before the first fragment, stage 1, stage 2, after completion) with consistent payloads; "
              "arbitrary flash contents (legal codes in illegal combinations, duplicate / extreme sequence numbers, "
